@@ -92,16 +92,14 @@ theorem genMEq_retag (P : Prims K) (o o' : Opts) (T : FTab K) (ienv : String →
       simp only [bind, Except.bind, pure, Except.pure]
       split
       · rfl
-      · split
-        · rfl
-        · simp only [genBlock_retag P o o' T body]
-          cases genBlock P o T body with
-          | error e => rfl
-          | ok ts =>
-            simp only [emap_ok]
-            split
-            · simp [retag, retags]
-            · simp [retag, retags_ofList]
+      · simp only [genBlock_retag P o o' T body]
+        cases genBlock P o T body with
+        | error e => rfl
+        | ok ts =>
+          simp only [emap_ok]
+          split
+          · simp [retag, retags]
+          · simp [retag, retags_ofList]
 
 theorem genMEqs_retag (P : Prims K) (o o' : Opts) (T : FTab K) (ienv : String → Option Int) :
     ∀ qs : List (MEq K),
